@@ -286,3 +286,10 @@ func render(v interface{}) string {
 	}
 	return fmt.Sprintf("%v", rv.Interface())
 }
+
+// Duration is a float64-based type of another package that happens to share the bare name of
+// the configured custom duration type; Seconds is an int64-based foreign cast type.
+type Duration float64
+
+// Seconds is a foreign cast type over int64.
+type Seconds int64
